@@ -712,8 +712,43 @@ class Interp:
         return ("await", v)
 
     # -- calls ------------------------------------------------------------------------------------
+    @staticmethod
+    def _place_var(a):
+        """Name of the variable an argument expression designates (`&mut x`, `&mut *x`, `x`), or None."""
+        x = a
+        for _ in range(6):
+            if not isinstance(x, dict):
+                return None
+            if x.get("k") == "Var":
+                return x["name"]
+            if x.get("k") in ("Borrow", "Deref", "Coerce", "Cast", "Use", "Scope", "RawBorrow") and x.get("arg") is not None:
+                x = x["arg"]
+            else:
+                return None
+        return None
+
     def ev_call(self, e, env, depth):
         fn = e.get("fn")
+        s2 = T.short(fn, 2) if fn else ""
+        if s2 in ("mem::replace", "mem::swap", "mem::take") and e.get("args"):
+            # writes through a `&mut` to a variable we track: model the store
+            names = [self._place_var(a) for a in e["args"]]
+            if s2 == "mem::replace" and names[0] is not None and names[0] in env:
+                new = self.ev(e["args"][1], env, depth + 1)
+                old = env[names[0]]
+                env[names[0]] = new
+                self.trace.append(("assign", names[0], new, e.get("sp")))
+                return old
+            if s2 == "mem::swap" and names[0] in env and names[1] in env and None not in names:
+                env[names[0]], env[names[1]] = env[names[1]], env[names[0]]
+                self.trace.append(("assign", names[0], env[names[0]], e.get("sp")))
+                self.trace.append(("assign", names[1], env[names[1]], e.get("sp")))
+                return ("unit",)
+            if s2 == "mem::take" and names[0] is not None and names[0] in env:
+                old = env[names[0]]
+                env[names[0]] = ("term", "Default::default", ())
+                self.trace.append(("assign", names[0], env[names[0]], e.get("sp")))
+                return old
         args = [self.ev(a, env, depth + 1) for a in e.get("args", [])]
         if fn is None:
             f = self.ev(e.get("fun"), env, depth + 1)
